@@ -23,6 +23,7 @@ func main() {
 	defer drv.Close()
 	runInclude(f, res, drv)
 	runPull(f, res, drv)
+	runMultiTable(f, res, drv)
 	runMulti(f, res, drv)
 	runSched(f, res, drv)
 	runBooking(f, res, drv)
